@@ -1,0 +1,6 @@
+//go:build !verif
+
+package mempool
+
+// verifLockYield is a no-op in regular builds (see verif_hooks.go).
+func verifLockYield(string) {}
